@@ -535,6 +535,29 @@ fn report(ctx: &mut Ctx, family: &str, q: &str, input: &[u8], lines: &[Line], fl
 /* ------------------------------------------------------------------ families */
 
 fn junk(r: &mut Rng) -> Vec<u8> {
+    // long rejected text, ASCII or not (whatever is done with a rejected line — quoting it in a
+    // message, say — must not depend on its length or on where its characters' bytes fall): a
+    // prefix of 0–3 bytes shifts every later character boundary
+    if r.chance(18) {
+        let unit = *r.pick(&["é", "€", "語", "😀", "z", "ß", "a€", "\u{301}e"]);
+        let mut t = "x".repeat(r.below(4));
+        let n = 40 + r.below(700);
+        for _ in 0..n {
+            t.push_str(unit);
+        }
+        let mut b = t.into_bytes();
+        if r.chance(20) {
+            // … or not valid UTF-8 at all
+            b.extend(std::iter::repeat(0xFFu8).take(100 + r.below(300)));
+        }
+        if r.chance(30) {
+            // a truncated document
+            let mut d = b"{\"k\":\"".to_vec();
+            d.extend(b);
+            return d;
+        }
+        return b;
+    }
     match r.below(14) {
         0 => b"not json at all".to_vec(),
         1 => b"{\"k\": \"a\", \"n\": ".to_vec(),
